@@ -162,6 +162,27 @@ def run_op(op, env):
             env[var] = m
             del bc
             return ('ok', m.name, type(m.semantics).__name__)
+        if kind == 'bshared':
+            # ONE BuilderConfig object that the caller keeps and hands to several calls; some of them also give typedefs (user classes
+            # named like node types).  Each call's result depends on its own arguments only, and the config object is not altered.
+            from tatsu.objectmodel import Node
+            from tatsu.objectmodel.builder import BuilderConfig
+            _, g, text, with_typedefs = op
+            if '__bc__' not in env:
+                env['__bc__'] = BuilderConfig()
+            bc = env['__bc__']
+            before = (list(bc.typedefs), list(bc.constructors), bc.basetype, bc.synthok)
+            kw = {}
+            if with_typedefs:
+                kw['typedefs'] = [{'Item': type('Item', (Node,), {'user_defined': True}), 'Prog': type('Prog', (Node,), {'user_defined': True})}]
+            try:
+                res = ('ok', canon(tatsu.parse(GRAMS[g], text, builderconfig=bc, **kw)))
+            except ParseException as e:
+                res = ('fail', type(e).__name__)
+            after = (list(bc.typedefs), list(bc.constructors), bc.basetype, bc.synthok)
+            if before != after:
+                return ('MUTATED', repr(before)[:200], repr(after)[:200])
+            return res
         if kind in ('bpair', 'bsingle'):
             # two compile() calls in a row that differ only in a BuilderConfig the caller does not keep (the second object is very
             # likely to get the address of the first), then a parse with each model.  The reference is two independent single calls.
@@ -413,6 +434,9 @@ def gen_history(rnd):
             g = rnd.choice(list(GRAMS))
             op = ('gen', g, rnd.choice(['G1', 'G2']), var)
             parsers[var] = g
+        elif c < 0.83:
+            g = rnd.choice(['g2', 'g6', 'g9', 'g2'])
+            op = ('bshared', g, rnd.choice(OWN_TEXTS[g]), rnd.random() < 0.5)
         elif c < 0.92 and parsers:
             var = rnd.choice(list(parsers))
             g = parsers[var]
@@ -436,6 +460,11 @@ def gen_history(rnd):
                 parsers.pop(v, None)
             op = ('gc', drop)
         hist.append(op)
+        if op[0] == 'bshared':
+            # the kept config goes to further calls, with and without typedefs
+            for _ in range(rnd.randint(1, 3)):
+                g2 = rnd.choice(['g2', 'g6', 'g2'])
+                hist.append(('bshared', g2, rnd.choice(OWN_TEXTS[g2]), rnd.random() < 0.4))
         if op[0] == 'bcompile' and rnd.random() < 0.6:
             # the same call with another base class (its BuilderConfig may well get the address of the first one), then the first model again
             hist.append(('mparse', op[-1], pick_text(rnd, op[1]), None, {}))
